@@ -208,8 +208,8 @@ def case_iterators(ctx, env, rng, cid):
       want.append(next(g))
   except StopIteration as e:
     want_end = ('stop', ('ret',) if e.value is not None else ())
-  except c14lib.AppError as e:
-    want_end = ('exc', 'AppError', str(e))
+  except (c14lib.AppError, TimeoutError) as e:
+    want_end = ('exc', type(e).__name__, str(e))
 
   if kind in ('remote_iterator', 'remote_iterator_async', 'object_iter'):
     ctx.count('iterator_cases')
